@@ -1,4 +1,5 @@
 import SieveModel.Lemmas.ClientRead
+import SieveModel.Generated.MsConsts
 import SieveModel.Props.C09
 import SieveModel.Lemmas.Listing
 import SieveModel.Lemmas.Session
@@ -150,5 +151,8 @@ theorem replies_are_read_one_at_a_time (nbl : Option Nat) (replies : List Status
     obtain ⟨st2, h2, hp2⟩ := ih (fun x hx => hw x (by simp [hx])) st1 hp1
     refine ⟨st2, ?_, hp2⟩
     simp only [List.length_cons, readAll, h1, h2, List.map_cons]
+
+/-- the capabilities the client keeps (regenerated from `KNOWN_CAPABILITIES`) are the modelled ones, in that order -/
+theorem known_capabilities_are_the_modelled_ones : Generated.knownCapabilities.map sb = Client.knownCaps := by decide
 
 end C15
